@@ -214,3 +214,64 @@ def evalParagraph (s : MS) (fwd : Bool) (count : Nat) (hasVerb : Bool) : MK :=
       else .on st
 
 end Vicut
+
+namespace Vicut
+
+/-- Paragraph objects over lines (fix 377b03c). `blank` has one flag per line: nothing on it but blanks. -/
+structure PL where
+  blank : List Bool
+  deriving Repr, BEq, DecidableEq
+
+def PL.last (p : PL) : Nat := p.blank.length - 1
+def PL.b (p : PL) (i : Nat) : Bool := p.blank[i]?.getD true
+
+/-- `while first_line > 0 && blank(first_line - 1) == kind { first_line -= 1 }` -/
+def PL.runUp (p : PL) (kind : Bool) : Nat → Nat
+  | 0 => 0
+  | i + 1 => if p.b i == kind then p.runUp kind i else i + 1
+
+/-- `while last_line < last && blank(last_line + 1) == kind { last_line += 1 }` (fuel = lines below) -/
+def PL.runDown (p : PL) (kind : Bool) : Nat → Nat → Nat
+  | 0, l => l
+  | f + 1, l => if l < p.last && p.b (l + 1) == kind then p.runDown kind f (l + 1) else l
+
+/-- `extend`: one more run of lines of one kind, downwards; `none` at the end of the buffer. -/
+def PL.extend (p : PL) (l : Nat) : Option Nat :=
+  if l == p.last then none else some (p.runDown (p.b (l + 1)) (p.last - l) (l + 1))
+
+/-- the `count - 1` further steps of `ip` -/
+def PL.moreRuns (p : PL) : Nat → Nat → Option Nat
+  | 0, l => some l
+  | k + 1, l => match p.extend l with | none => none | some l' => p.moreRuns k l'
+
+/-- the `count - 1` further steps of `ap`: a further paragraph with the blank lines after it (on blank
+lines: further blank lines with the paragraph after them) -/
+def PL.moreParas (p : PL) (onBlank : Bool) : Nat → Nat → Option Nat
+  | 0, l => some l
+  | k + 1, l =>
+    match p.extend l with
+    | none => none
+    | some l1 =>
+      if onBlank then
+        (if p.b l1 then (match p.extend l1 with | none => none | some l2 => p.moreParas onBlank k l2)
+         else p.moreParas onBlank k l1)
+      else if !p.b l1 then p.moreParas onBlank k ((p.extend l1).getD l1)
+      else p.moreParas onBlank k l1
+
+/-- `text_obj_paragraph`: first and last line number of `ip` / `ap` with a count. -/
+def PL.textObj (p : PL) (cur : Nat) (count : Nat) (around : Bool) : Option (Nat × Nat) :=
+  (fun c =>
+    (fun first lastl =>
+      if !around then (p.moreRuns (count - 1) lastl).map (fun l => (first, l))
+      else if p.b c then
+        match p.extend lastl with
+        | none => none
+        | some l1 => (p.moreParas true (count - 1) l1).map (fun l => (first, l))
+      else
+        match p.extend lastl with
+        | some l1 => (p.moreParas false (count - 1) l1).map (fun l => (first, l))
+        | none => (p.moreParas false (count - 1) lastl).map (fun l => (p.runUp true first, l)))
+    (p.runUp (p.b c) c) (p.runDown (p.b c) (p.last - c) c))
+  (min cur p.last)
+
+end Vicut
